@@ -46,7 +46,10 @@ constexpr auto ceil_check(T const x) noexcept -> T
                           // signed-zero cases
             etl::numeric_limits<T>::epsilon() > abs(x) ? x
                                                        :
-                                                       // else
+                                                       // negative zero result
+            (x < T(0) && x > T(-1)) ? -T(0)
+                                    :
+                                    // else
             ceil_int(x, T(static_cast<llint_t>(x)))
     );
 }
